@@ -13,6 +13,10 @@ GFlags(cfg) ==
     [] cfg.gran = "filefunctions" -> [fn |-> TRUE,  file |-> TRUE,  line |-> FALSE, col |-> FALSE, addr |-> FALSE]
     [] cfg.gran = "files"         -> [fn |-> FALSE, file |-> TRUE,  line |-> FALSE, col |-> FALSE, addr |-> FALSE]
     [] cfg.gran = "lines"         -> [fn |-> TRUE,  file |-> TRUE,  line |-> TRUE,  col |-> FALSE, addr |-> FALSE]
+    \* show_columns ("+cols"): the column is part of an entry only where the line is; coarser granularities drop both
+    [] cfg.gran = "lines+cols"     -> [fn |-> TRUE,  file |-> TRUE,  line |-> TRUE,  col |-> TRUE,  addr |-> FALSE]
+    [] cfg.gran = "functions+cols" -> [fn |-> TRUE,  file |-> FALSE, line |-> FALSE, col |-> FALSE, addr |-> FALSE]
+    [] cfg.gran = "files+cols"     -> [fn |-> FALSE, file |-> TRUE,  line |-> FALSE, col |-> FALSE, addr |-> FALSE]
     [] cfg.gran = "addresses" /\ cfg.noinl
                                   -> [fn |-> TRUE,  file |-> TRUE,  line |-> TRUE,  col |-> FALSE, addr |-> TRUE]
     [] OTHER                      -> [fn |-> TRUE,  file |-> TRUE,  line |-> TRUE,  col |-> TRUE,  addr |-> TRUE]  \* no aggregation
